@@ -218,6 +218,15 @@ class DLPOLY_PairTabulationFactory(PairTabulationFactory):
       raise ConfigurationException("A DL_POLY TABLE file needs at least 8 rows. Number of rows specified = {} ".format(cutoffs.nr))
     return cutoffs
 
+  def extract_potential_objects(self, cp, potential_form_registry, modifier_registry):
+    potobjs = super(DLPOLY_PairTabulationFactory, self).extract_potential_objects(cp, potential_form_registry, modifier_registry)
+    for pot in potobjs:
+      for label in (pot.speciesA, pot.speciesB):
+        if len(label) > 8:
+          # the labels head each block in fixed fields of 8 characters
+          raise ConfigurationException("Species labels in a DL_POLY TABLE file are limited to 8 characters: '{}'".format(label))
+    return potobjs
+
 class ADP_EAMTabulationFactory(EAMTabulationFactory):
   """EAMTabulationFactory which creates the additional dipole and quadrupole objects 
   required by the ADP EAM extension"""
